@@ -36,7 +36,7 @@ PROPS = {
         "assumptions": ["GLV paths are judged on points of the order-r subgroup (the Projective type's invariant); curve crates' GLV parameters are C16"],
     },
     "C09": {
-        "modules": ["Ark.Props.C09", "Ark.Props.C09b"],
+        "modules": ["Ark.Props.C09", "Ark.Props.C09b", "Ark.Props.C10b"],
         "extra_streams": [{"crate": "harness2", "bin": "c10x"}],
         "rule": "one op line per (type, mode, value) round trip or uniqueness probe; distinct = distinct op line; non-trivial = value outside {0,1}",
         "exhaustive": ["every byte string of the serialized size for the toy fields and toy curves"],
@@ -45,7 +45,7 @@ PROPS = {
         "assumptions": ["the ZCash format of the bls12_381 curve crate is not modelled (ark_test_curves does not override serialization)"],
     },
     "C10": {
-        "modules": ["Ark.Props.C10"],
+        "modules": ["Ark.Props.C10", "Ark.Props.C10b"],
         "extra_streams": [{"crate": "harness2", "bin": "c10x"}],
         "rule": "one op line per (type, mode, validate, byte string) deserialization; distinct = distinct op line; non-trivial = non-empty byte string",
         "exhaustive": ["every byte string of the serialized size (and all truncations) for the toy fields and toy curves"],
